@@ -4,6 +4,7 @@ mod c02;
 mod c12;
 mod c13;
 mod c16;
+mod c17;
 mod enc;
 mod gen;
 mod rng;
@@ -28,6 +29,7 @@ fn main() {
         let mut rng = Rng::new(seed, case);
         let line = std::panic::catch_unwind(std::panic::AssertUnwindSafe(|| match kind {
             "C16" => c16::case(&mut rng),
+            "C17" => c17::case(&mut rng),
             "C02" => c02::case(&mut rng, false),
             "C02T" => c02::case(&mut rng, true),
             "C12" => c12::case(&mut rng, false),
